@@ -81,15 +81,17 @@ class BasicStructure(ComplexDop):
 
         if self.byte_size is not None:
             actual_len = encode_state.cursor_byte_position - orig_pos
-
             if actual_len < self.byte_size:
-                # Padding bytes are needed. We add an empty object at
-                # the position directly after the structure and let
-                # EncodeState add the padding as needed.
-                encode_state.cursor_byte_position = encode_state.origin_byte_position + self.byte_size
-                # Padding bytes needed. these count as "used".
-                encode_state.coded_message += b"\x00" * (self.byte_size - actual_len)
-                encode_state.used_mask += b"\xff" * (self.byte_size - actual_len)
+                # pad the structure with zeros up to its specified
+                # size. Note that the size is relative to the
+                # beginning of the structure, not to the origin of
+                # the enclosing object.
+                end_pos = orig_pos + self.byte_size
+                pad_len = end_pos - len(encode_state.coded_message)
+                if pad_len > 0:
+                    encode_state.coded_message += b"\x00" * pad_len
+                    encode_state.used_mask += b"\xff" * pad_len
+                encode_state.cursor_byte_position = end_pos
 
     @override
     def decode_from_pdu(self, decode_state: DecodeState) -> ParameterValue:
